@@ -1,8 +1,12 @@
 #!/bin/sh
 # seedtest.sh <patch.diff> <PID> [more check args]: apply a seeded regression to /repo, run the check, undo.
+# Output (generated files, replays, evidence) goes to a scratch directory so that /verif/evidence keeps
+# describing the unchanged tree.
 p="$1"; shift
+out=/tmp/wt/seedtest_out
+mkdir -p "$out"
 git -C /repo apply "$p" || exit 9
-cd /verif && ./check "$@"; rc=$?
+cd /verif && VERIF_OUT="$out" ./check "$@"; rc=$?
 git -C /repo checkout -- .
-echo "seedtest rc=$rc"
+echo "seedtest rc=$rc (replays/evidence of this run: $out)"
 exit $rc
